@@ -863,7 +863,8 @@ func (s *AbsfsNFS) ReadDirPlus(dir *NFSNode) ([]*NFSNode, error) {
 	// Pre-cache attributes for all entries
 	for _, node := range nodes {
 		if attrs, found := s.attrCache.Get(node.path, s); !found || attrs == nil || !attrs.IsValid() {
-			info, err := s.fs.Stat(node.path)
+			// Lstat, not Stat: a symbolic link entry must be reported as a link
+			info, err := s.fs.Lstat(node.path)
 			if err != nil {
 				continue
 			}
@@ -874,11 +875,14 @@ func (s *AbsfsNFS) ReadDirPlus(dir *NFSNode) ([]*NFSNode, error) {
 			node.mu.RUnlock()
 
 			modTime := info.ModTime()
+			h := fnv.New64a()
+			h.Write([]byte(node.path))
 			attrs := &NFSAttrs{
-				Mode: info.Mode(),
-				Size: info.Size(),
-				Uid:  uid,
-				Gid:  gid,
+				Mode:   info.Mode(),
+				Size:   info.Size(),
+				FileId: h.Sum64(),
+				Uid:    uid,
+				Gid:    gid,
 			}
 			attrs.SetMtime(modTime)
 			attrs.SetAtime(modTime)
